@@ -52,6 +52,21 @@ def writes(rng, writable, n, bad_prob=0.006):
     return "%d:%s" % (len(ws), ",".join(ws))
 
 
+def near_identity_writes(rng, writable, n):
+    """unit diagonal plus 0..2 further writable entries (non-zero, 0.0 or -0.0): the inputs on which is_identity
+    has to look at every stored cell, in particular the far side of an asymmetric band (seeded change C17-b)"""
+    ws = ["%d/%d/%s" % (i, i, hx(1.0)) for i in range(n) if (i, i) in writable]
+    off = [ij for ij in writable if ij[0] != ij[1]]
+    for _ in range(rng.choice([0, 1, 1, 2])):
+        if not off:
+            break
+        # prefer the entries farthest from the diagonal
+        off.sort(key=lambda ij: -abs(ij[0] - ij[1]))
+        i, j = off[0] if rng.random() < 0.5 else rng.choice(off)
+        ws.append("%d/%d/%s" % (i, j, hx(rng.choice([5.0, -0.25, 1e-300, 0.0, -0.0]))))
+    return "%d:%s" % (len(ws), ",".join(ws))
+
+
 def matrix_cases(seed, ncases, nmax=8):
     rng = random.Random(seed)
     cases, metas = [], {}
@@ -60,7 +75,8 @@ def matrix_cases(seed, ncases, nmax=8):
         n = rng.randint(1, nmax)
         a, wa, ka = rand_ctor(rng, n)
         op = ops[c % len(ops)]
-        toks = ["matrix", "id=m%d" % c, "a=" + a, "aw=" + writes(rng, wa, n)]
+        near_id = op in ("none", "cmul", "add") and rng.random() < 0.3
+        toks = ["matrix", "id=m%d" % c, "a=" + a, "aw=" + (near_identity_writes(rng, wa, n) if near_id else writes(rng, wa, n))]
         kb = None
         if op in ("add", "sub", "addassign", "subassign"):
             nb = n if rng.random() < 0.97 else rng.randint(1, nmax)
@@ -72,7 +88,7 @@ def matrix_cases(seed, ncases, nmax=8):
         else:
             toks.append("op=%s:%s" % (op, hx(rng.choice([0.0, -0.0, 1.0, 2.5, -1.0, rng.uniform(-3, 3)]))))
         cases.append(" ".join(toks))
-        metas["m%d" % c] = {"n": n, "a": ka, "b": kb, "op": op}
+        metas["m%d" % c] = {"n": n, "a": ka, "b": kb, "op": op, "near_identity": near_id}
     return cases, metas
 
 
@@ -145,3 +161,60 @@ def lu_exhaustive_small(nmax=3, vals=(-2, -1, 0, 1, 2), limit=None, seed=0):
             cases.append(lu_case("e%d" % k, n, n, n, [float(v) for v in flat], b))
             k += 1
     return cases
+
+
+def luc_cases(seed, ncases, nmax=6):
+    """complex systems for lu_decomp_complex / lin_solve_complex.  Entries are drawn so that exactly-real, exactly-imaginary
+    and exactly-zero entries are common: the elimination loop has a separate arithmetic path for each of them
+    (seeded change C16-b altered only the purely-imaginary one)."""
+    rng = random.Random(seed + 99)
+    cases, metas = [], {}
+    kinds = ["dense", "structured", "structured", "smallint", "radau", "singular", "shape", "zerocol"]
+
+    def entry(kind):
+        if kind == "dense":
+            return rng.uniform(-5, 5), rng.uniform(-5, 5)
+        if kind == "smallint":
+            return float(rng.randint(-2, 2)), float(rng.randint(-2, 2))
+        r = rng.random()
+        if r < 0.3:
+            return rng.choice([1.0, -2.0, 0.5, rng.uniform(-4, 4)]), 0.0
+        if r < 0.6:
+            return 0.0, rng.choice([1.0, -1.0, 3.0, rng.uniform(-4, 4)])
+        if r < 0.7:
+            return 0.0, 0.0
+        return rng.uniform(-4, 4), rng.uniform(-4, 4)
+
+    for c in range(ncases):
+        kind = kinds[c % len(kinds)]
+        n = rng.randint(1, nmax)
+        cols, iplen = n, n
+        if kind == "radau":
+            # (alpha + i beta) I - J with a real J, as Radau builds it
+            al, be = rng.uniform(0.5, 50), rng.uniform(0.5, 50)
+            A = [[(al * (i == j) - rng.uniform(-3, 3) * (rng.random() < 0.6), be * (i == j)) for j in range(n)] for i in range(n)]
+        else:
+            ek = "structured" if kind in ("singular", "zerocol", "shape") else kind
+            A = [[entry(ek) for _ in range(n)] for _ in range(n)]
+        if kind == "singular" and n > 1:
+            r = rng.randrange(1, n)
+            # row r = (2 i) * row 0
+            A[r] = [(-2.0 * im, 2.0 * re) for (re, im) in A[0]]
+        if kind == "zerocol":
+            k = rng.randrange(n)
+            for i in range(n):
+                A[i][k] = (0.0, 0.0)
+        if kind == "shape":
+            if rng.random() < 0.5 and n > 1:
+                cols = n - 1
+                A = [row[:cols] for row in A]
+            else:
+                iplen = n + rng.choice([-1, 1]) if n > 1 else 2
+        ar = [re for row in A for (re, im) in row]
+        ai = [im for row in A for (re, im) in row]
+        br = [rng.choice([0.0, 1.0, rng.uniform(-3, 3)]) for _ in range(n)]
+        bi = [rng.choice([0.0, -1.0, rng.uniform(-3, 3)]) for _ in range(n)]
+        cid = "c%d" % c
+        cases.append("luc id=%s n=%d cols=%d iplen=%d ar=%s ai=%s br=%s bi=%s" % (cid, n, cols, iplen, hxlist(ar), hxlist(ai), hxlist(br), hxlist(bi)))
+        metas[cid] = {"n": n, "kind": "complex-" + kind}
+    return cases, metas
